@@ -113,7 +113,13 @@ def q_close(sysm, q1, q2, tol):
     if t == 'f':
       ok = close(q1[a:a + 3], q2[a:a + 3], tol) and quat_close(q1[a + 3:b], q2[a + 3:b], tol)
     else:
-      ok = close(q1[a:b], q2[a:b], tol)
+      x1, x2 = np.asarray(q1[a:b], dtype=np.float64), np.asarray(q2[a:b], dtype=np.float64)
+      # an angle extracted as atan2(+-0, negative) is +pi on one side and -pi on the other (sign of a floating zero): the
+      # same angle; coordinates that differ by 2 pi (to 1e-6) are compared modulo 2 pi
+      if x1.shape == x2.shape:
+        wrap = np.abs(np.abs(x1 - x2) - 2 * np.pi) < 1e-6
+        x1 = np.where(wrap, x1 - np.sign(x1 - x2) * 2 * np.pi, x1)
+      ok = close(x1, x2, tol)
     if not ok:
       bad.append(i)
   return bad
